@@ -543,6 +543,8 @@ func runCase(r *hx.Run, c hx.Case) {
 		runXS(r, c)
 	case "stale":
 		runStale(r, c)
+	case "mcd":
+		runMCD(r, c)
 	case "srvstale":
 		runStale(r, hx.Case{ID: strings.TrimSuffix(c.ID, "s"), Kind: "stale", Args: strings.Split(string(hx.UnHex(c.Args[len(c.Args)-1])), " ")})
 	case "auth14s":
@@ -703,6 +705,24 @@ func Run(r *hx.Run, replay []hx.Case) {
 					ver := []int{tls.VersionTLS12, tls.VersionTLS13}[(n+d.at+round)%2]
 					runCase(r, hx.Case{ID: r.NewID(), Kind: "xs", Args: []string{m, hx.Hex([]byte(user)), hx.Hex([]byte(secret)), "~",
 						hx.Hex(randBytes(r, 1+r.Rng.Intn(32))), strconv.Itoa(1 + r.Rng.Intn(4)), strconv.Itoa(ver), d.mode, strconv.Itoa(d.at), strconv.Itoa(n)}})
+				}
+			}
+		}
+	}
+	// one mail.Client value, 2 and 3 dials, every auth type, clear / STARTTLS with TLS 1.2 / 1.3, credentials unchanged /
+	// changed together with the account / changed to wrong ones
+	for _, at := range []string{"plain", "login", "cram", "xoauth2", "sha1", "sha256", "sha1plus", "sha256plus", "auto", "plain-noenc", "login-noenc"} {
+		for _, tv := range []string{"0", "12", "13"} {
+			noenc := strings.HasSuffix(at, "-noenc")
+			if (noenc && tv != "0") || (strings.HasSuffix(at, "plus") && tv == "0") {
+				continue
+			}
+			for _, ch := range []string{"none", "follow", "wrong"} {
+				for _, nd := range []string{"2", "3"} {
+					if r.Expired() || (!thorough && nd == "3" && ch != "none") {
+						continue
+					}
+					runCase(r, hx.Case{ID: r.NewID(), Kind: "mcd", Args: []string{at, tv, nd, ch, hx.Hex([]byte(genString(r, 1) + "u")), hx.Hex([]byte(genString(r, 1) + "p"))}})
 				}
 			}
 		}
